@@ -45,10 +45,18 @@ let step _ cs os =
    | None ->
      let wire = list_of (get o "wire") parse_seg in
      let garbage = n_of_hex (get o "garbage") in
+     (* hung=<t:i,..>: calls whose request went out whole and that only ended by their own timeout *)
+     (match get_opt o "hung" with
+      | Some h -> out := ("BAD\tside=impl\tclause=a call in flight when the connection was failed hung until its own timeout: " ^ h) :: !out
+      | None -> ());
      let res = list_of (get o "res") (fun s -> match split_on ':' s with
          | [t; q; st] -> ((int_of_n (n_of_hex t), int_of_n (n_of_hex q)), st_of st)
          | _ -> failwith ("bad result " ^ trunc s)) in
      let eof = get o "eof" = "1" in
+     (* servers: idle=torn means that, with every request read and nothing more to answer, the open
+        connection held an incomplete frame *)
+     if get_opt o "idle" = Some "torn" then
+       out := "BAD\tside=impl\tclause=an idle server left an incomplete frame on an open connection (its tail only left with a later response)" :: !out;
      let atomic = is_atomic ep in
      let status k = Stdlib.List.assoc_opt k res in
      let probes_failed = Stdlib.List.exists (fun ((t, _), st) -> t >= pfi && st <> Ok_) res in
